@@ -925,7 +925,7 @@ def search(chk, impl, wd, cases, V, status):
         p = wd.write(c.get("toml") or toml_text(c["doc"]))
         fails = oracle_config(impl, p, c)
         if fails:
-            sig = (c["kind"], fails[0][:50])
+            sig = fails[0][:60]
             if sig in seen:
                 continue
             seen.add(sig)
